@@ -156,6 +156,12 @@ func (a *accessManager) isBlockedIP(ip netip.Addr) (blocked bool, rule string) {
 		return blocked, ip.String()
 	}
 
+	// An address configured without a zone means that address on any
+	// interface, the same way the networks below do.
+	if noZone := ip.WithZone(""); noZone != ip && ips.Has(noZone) {
+		return blocked, noZone.String()
+	}
+
 	for _, ipnet := range ipnets {
 		// Remove zone before checking because prefixes stip zones.
 		//
